@@ -2,6 +2,8 @@
 E2: explicit-state BFS over FunctionLogger operation histories (call/add, record flags, colliding points,
 cache sizes forcing growth, noise levels, transforms) against a list-of-records reference model."""
 import copy
+import math
+from fractions import Fraction
 
 import numpy as np
 
@@ -35,9 +37,10 @@ class Ref:
                 idx = [i for i, r in enumerate(self.rows) if r["x"] == p]
                 if idx:
                     r = self.rows[idx[0]]
-                    tn, t1 = 1 / r["s"] ** 2, 1 / sd**2
-                    r["y"] = (tn * r["y"] + t1 * v) / (tn + t1)
-                    r["s"] = 1 / np.sqrt(tn + t1)
+                    # precision-weighted mean and combined SD in exact rational arithmetic (no under/overflow for extreme SDs)
+                    sn2, s12 = Fraction(r["s"]) ** 2, Fraction(sd) ** 2
+                    r["y"] = float((Fraction(r["y"]) * s12 + Fraction(v) * sn2) / (sn2 + s12))
+                    r["s"] = r["s"] * math.sqrt(float(s12 / (sn2 + s12)))
                     r["n"] += 1
                     r["merged"] = True
                     merged = True
@@ -47,7 +50,7 @@ class Ref:
             self.func_count += 1
 
     def canon(self):
-        return repr([(r["x"], round(r["y"], 12), None if r["s"] is None else round(r["s"], 12), r["n"]) for r in self.rows]) + "|%d" % self.func_count
+        return repr([(r["x"], float("%.12g" % r["y"]), None if r["s"] is None else float("%.12g" % r["s"]), r["n"]) for r in self.rows]) + "|%d" % self.func_count
 
 
 def compare(fl, ref, vt):
@@ -106,18 +109,22 @@ def make_vt(kind, D):
 def run_cfg(cfg):
     from pybads.function_logger import FunctionLogger
 
-    D, level, cache, depth, tk = cfg
+    D, level, cache, depth, tk = cfg[:5]
+    sdk = cfg[5] if len(cfg) > 5 else "std"
     pts = points(D)
     vals = [1.0, 3.0]
-    sds = [1.0, 0.5] if level == 2 else [None]
+    SD2 = {"std": [1.0, 0.5], "tiny": [1e-160, 3e-161], "huge": [1e200, 2.5e199]}[sdk]  # squares of the extreme ones under/overflow
+    sds = SD2 if level == 2 else [None]
     ops = [("call", p, v, s, r) for p in pts for v in vals for s in sds for r in (True, False)]
     if level != 1:
-        ops += [("add", p, v, s, None) for p in pts for v in vals for s in ([1.0, 0.5] if level == 2 else [None])]
+        ops += [("add", p, v, s, None) for p in pts for v in vals for s in (SD2 if level == 2 else [None])]
     holder = {}
     vt = make_vt(tk, D)
 
     def fun(x):
         holder["arg"] = np.array(x, float).copy()
+        if isinstance(x, np.ndarray) and x.flags.writeable:
+            x[...] = 7.0e7  # the target scribbles over its argument: the log must not notice
         return (holder["v"], holder["s"]) if level == 2 else holder["v"]
 
     root = FunctionLogger(fun, D, level > 0, level, cache_size=cache, variable_transformer=vt)
@@ -196,6 +203,8 @@ def run(ctx):
                         if level == 2 and D == 2 and cache == 3 and tk != "none":
                             depth = 3
                     cfgs.append((D, level, cache, depth, tk))
+    # reported SDs whose squares under/overflow (merging must still give the precision-weighted mean)
+    cfgs += [(D, 2, cache, 3, tk, sdk) for D in (1, 2) for cache in (1, 3) for tk in ("none", "affine") for sdk in ("tiny", "huge")]
     cfgs.sort(key=lambda c: -(c[3] * 10 + c[1] + c[0]))
     S = T = 0
     md = 0
@@ -210,7 +219,7 @@ def run(ctx):
     rep.set("traces_validated_against_impl", T)
     rep.set("max_depth", md)
     rep.set("configurations", len(cfgs))
-    rep.sample(dict(cfg=dict(D=2, noise_level=2, cache_size=1, transform="affine"), ops="call(p,v,sd,record in {T,F}) / add(p,v,sd) over 4 points sharing 0..2 coordinates, v in {1,3}, sd in {1,0.5}", depth=cfgs[0][3]))
+    rep.sample(dict(cfg=dict(D=2, noise_level=2, cache_size=1, transform="affine"), ops="call(p,v,sd,record in {T,F}) / add(p,v,sd) over 4 points sharing 0..2 coordinates, v in {1,3}, sd in {1,0.5} (+ {1e-160,3e-161} and {1e200,2.5e199}); the target overwrites its argument in place", depth=cfgs[0][3]))
     rep.assumptions += ["noise level 1 (declared, unspecified): no pre-evaluated additions in the menu (statement silent)", "Y_orig compared only on unmerged rows"]
     if T < 1000:
         raise HarnessError("vacuous BFS")
